@@ -63,11 +63,13 @@ type instance struct {
 	// calculator only: current operations manager, last expression set successfully (for
 	// re-evaluation without SetExpression) and a variable collection that lives as long as
 	// the instance and is edited between steps
-	opsSafe  bool
-	lastText string
-	parsed   bool
-	pvars    *variables.VariableCollection
-	pcount   int
+	lastScanner *SimScanner // tokenizers: the scanner object of the previous step, for re-attaching it
+	lastInput   string
+	opsSafe     bool
+	lastText    string
+	parsed      bool
+	pvars       *variables.VariableCollection
+	pcount      int
 }
 
 // freshLike builds a new instance with the configuration history of in.
@@ -77,6 +79,7 @@ func (in *instance) freshLike() *instance {
 		f.configure(c)
 	}
 	f.lastText = in.lastText // the fresh instance has to parse it first (parsed stays false)
+	f.lastInput = in.lastInput
 	return f
 }
 
@@ -306,6 +309,25 @@ func (in *instance) step(o Op, sets []VarSet, dry *stepStats) (res string, st st
 		}
 		var toks []*tokenizers.Token
 		sc := NewSimScanner(o.S, eofAt, failAt)
+		if o.Op == "rewind" {
+			// the caller rewinds the scanner object of the previous step and hands the same object in again;
+			// a fresh instance sees a new scanner over the same input
+			if in.lastScanner != nil {
+				sc = in.lastScanner
+				sc.FailAt = 0
+				sc.Reset()
+			} else {
+				sc = NewSimScanner(in.lastInput, -1, 0)
+			}
+			func() {
+				defer func() { st.scannerCalls = sc.Calls }()
+				toks = in.tok.TokenizeStream(sc)
+			}()
+			st.tokens = len(toks)
+			st.contentLen = len(sc.Content)
+			return describeTokens(toks), st
+		}
+		in.lastScanner, in.lastInput = sc, string(sc.Content)
 		if f != nil && dry != nil && (f.Kind == "state_nil" || f.Kind == "state_empty") && len(sc.Content) > 0 {
 			// a caller-supplied tokenizer state that yields nothing for some character: the main
 			// loop's guard has to consume the character itself
@@ -381,11 +403,11 @@ func (in *instance) step(o Op, sets []VarSet, dry *stepStats) (res string, st st
 		st.tokens = len(toks)
 		st.contentLen = len(sc.Content)
 		return describeTokens(toks), st
-	case in.ep != nil && o.Op == "tokens":
-		err := in.ep.ParseTokens(exprOriginalTokens(o.S))
+	case in.ep != nil && (o.Op == "tokens" || o.Op == "rawtokens"):
+		err := in.ep.ParseTokens(originalTokens(o, exprOriginalTokens))
 		return fmt.Sprintf("expr=%q err=%s|%s vars=%q result=%s", in.ep.Expression(), ErrCode(err), ErrMessage(err), in.ep.VariableNames(), describeExprTokens(in.ep.ResultTokens())), st
-	case in.mp != nil && o.Op == "tokens":
-		err := in.mp.ParseTokens(mustOriginalTokens(o.S))
+	case in.mp != nil && (o.Op == "tokens" || o.Op == "rawtokens"):
+		err := in.mp.ParseTokens(originalTokens(o, mustOriginalTokens))
 		var sb strings.Builder
 		snapshotTmplTokens(&sb, in.mp.ResultTokens())
 		return fmt.Sprintf("tmpl=%q err=%s|%s vars=%q result=%s", in.mp.Template(), ErrCode(err), ErrMessage(err), in.mp.VariableNames(), sb.String()), st
@@ -447,9 +469,9 @@ func (in *instance) step(o Op, sets []VarSet, dry *stepStats) (res string, st st
 			if !in.parsed {
 				err = in.calc.SetExpression(in.lastText)
 			}
-		case o.Op == "tokens":
+		case o.Op == "tokens" || o.Op == "rawtokens":
 			in.parsed, in.lastText = false, ""
-			in.calc.SetOriginalTokens(exprOriginalTokens(text)) // reports no error; a failed parse leaves an empty program
+			in.calc.SetOriginalTokens(originalTokens(o, exprOriginalTokens)) // reports no error; a failed parse leaves an empty program
 		default:
 			in.parsed, in.lastText = false, ""
 			err = in.calc.SetExpression(text)
@@ -476,8 +498,8 @@ func (in *instance) step(o Op, sets []VarSet, dry *stepStats) (res string, st st
 		return fmt.Sprintf("prog=%s eval=%s", prog, r), st
 	case in.tmpl != nil:
 		var err error
-		if o.Op == "tokens" {
-			err = in.tmpl.SetOriginalTokens(mustOriginalTokens(o.S))
+		if o.Op == "tokens" || o.Op == "rawtokens" {
+			err = in.tmpl.SetOriginalTokens(originalTokens(o, mustOriginalTokens))
 		} else {
 			err = in.tmpl.SetTemplate(o.S)
 		}
@@ -546,8 +568,16 @@ func c05GenTask(r *Rand, kind string, faults bool, first, second int) TaskPlan {
 			if kind == "csvtok" && r.Bool(0.12) {
 				tp.Ops = append(tp.Ops, Op{Op: "config", I: r.Intn(9)})
 			}
+			if r.Bool(0.08) && i > 0 {
+				o.Op = "rewind"
+			}
 		} else if r.Bool(0.2) {
 			o.Op = "tokens"
+			if r.Bool(0.35) {
+				o.Op = "rawtokens"
+			}
+		} else if r.Bool(0.08) && i > 0 {
+			o.Op = "owntext" // set the instance's own current text again
 		}
 		if kind == "calc" {
 			switch r.Intn(12) {
@@ -570,6 +600,9 @@ func c05GenTask(r *Rand, kind string, faults bool, first, second int) TaskPlan {
 			o.S = pool[second%len(pool)]
 		default:
 			o.S = c05Input(r, kind)
+			if i > 0 && r.Bool(0.15) {
+				o.S = tp.Ops[len(tp.Ops)-1].S // the same input as the step before (possibly through another entry point)
+			}
 		}
 		if o.Op == "pveval" {
 			o.S = fmt.Sprintf("pv%d %s pv%d", r.Intn(40), r.Pick([]string{"+", "*", "-"}), r.Intn(40))
@@ -660,6 +693,13 @@ func (propC05) Exec(p *Plan, x *Ctx) *Outcome {
 					od.F = nil
 					_, r.dry = in.freshLike().step(od, tp.Sets, nil)
 				}
+				if o.Op == "owntext" {
+					// the caller sets the text the instance itself reports again, e.g. c.SetExpression(c.Expression())
+					if t, ok := in.ownText(); ok {
+						o.S = t
+					}
+					o.Op = "buffer"
+				}
 				run.ResetOpSteps()
 				fresh := in.freshLike()
 				r.got, r.st = in.step(o, tp.Sets, &r.dry)
@@ -717,7 +757,7 @@ func (propC05) Exec(p *Plan, x *Ctx) *Outcome {
 					"task %d (%s, options %q) step %d after history %s:\n reused instance: %s\n fresh instance:  %s", t, tp.Kind, tp.Text, i, strings.Join(hist, ", "), clip(r.got), clip(r.fresh))
 				break
 			}
-			if (o.F == nil || !faultsOn) && c05Pristine != nil && !r.configured && o.Op != "reeval" && o.Op != "pveval" {
+			if (o.F == nil || !faultsOn) && c05Pristine != nil && !r.configured && o.Op != "reeval" && o.Op != "pveval" && o.Op != "rewind" && o.Op != "rawtokens" && o.Op != "owntext" {
 				if want, ok := c05Pristine[c05PristineKey(tp.Kind, tp.Text, o, o.Set%2)]; ok {
 					out.Probes["pristine_compared"]++
 					if want != r.got {
@@ -878,4 +918,40 @@ func faultyCallIndex(r *Rand, text, name string) int {
 		n = 1
 	}
 	return 1 + r.Intn(n)
+}
+
+// originalTokens gives the token list of a "tokens" step (the tokenizer's own
+// output) or of a "rawtokens" step: a list a caller assembled by hand that does
+// not come back when its composed text is tokenized again - the whole text as
+// one token, or the tokenizer's output with the values of adjacent tokens glued.
+func originalTokens(o Op, tokenize func(string) []*tokenizers.Token) []*tokenizers.Token {
+	toks := tokenize(o.S)
+	if o.Op != "rawtokens" {
+		return toks
+	}
+	if o.I%2 == 0 || len(toks) < 2 {
+		typ := tokenizers.Special
+		if len(toks) > 0 {
+			typ = toks[0].Type()
+		}
+		return []*tokenizers.Token{tokenizers.NewToken(typ, strings.Trim(o.S, " \t\r\n"), 1, 1)}
+	}
+	// glue the first two tokens into one of the first one's type
+	glued := tokenizers.NewToken(toks[0].Type(), toks[0].Value()+toks[1].Value(), toks[0].Line(), toks[0].Column())
+	return append([]*tokenizers.Token{glued}, toks[2:]...)
+}
+
+// ownText is the text an instance currently reports for itself.
+func (in *instance) ownText() (string, bool) {
+	switch {
+	case in.calc != nil:
+		return in.calc.Expression(), true
+	case in.ep != nil:
+		return in.ep.Expression(), true
+	case in.mp != nil:
+		return in.mp.Template(), true
+	case in.tmpl != nil:
+		return in.tmpl.Template(), true
+	}
+	return "", false
 }
